@@ -152,7 +152,13 @@ impl StructSpec {
 
 pub fn struct_spec(max_dims: usize, max_attrs: usize, max_rights: usize, odd_names: bool) -> impl Strategy<Value = StructSpec> {
     let dim = (any::<bool>(), 1..=max_attrs, any::<u16>(), proptest::collection::vec(0u8..4, max_attrs), any::<u16>());
-    proptest::collection::vec(dim, 1..=max_dims).prop_map(move |ds| {
+    proptest::collection::vec(dim, 1..=max_dims).prop_map(move |ds| struct_from_raw(ds, max_rights, odd_names))
+}
+
+/// Raw per-dimension choices (hierarchical?, attribute count, insertion-order seed, hints, name
+/// seed) -> structure; shared by the proptest strategy and the byte decoder of the fuzz target.
+pub fn struct_from_raw(ds: Vec<(bool, usize, u16, Vec<u8>, u16)>, max_rights: usize, odd_names: bool) -> StructSpec {
+    {
         let mut dims = vec![];
         let mut rights = 1usize;
         for (i, (hier, n, order_seed, hints, name_seed)) in ds.into_iter().enumerate() {
@@ -184,7 +190,7 @@ pub fn struct_spec(max_dims: usize, max_attrs: usize, max_rights: usize, odd_nam
             dims.push(DimSpec { name: "SEC".into(), hier: true, attrs: vec![("LOW".into(), false)], order_seed: 0 });
         }
         StructSpec { dims }
-    })
+    }
 }
 
 // ------------------------------------------------------------------ policies
